@@ -34,6 +34,9 @@ CHECKS = {
  "C20": dict(engine="irsim", category="exploration", design="DESIGN.md section 6 (C20)", technique="deterministic simulation: the same seeded history run plain / under scheduled nested journals with exception exits / plain again; differential state and outcome comparison, call observer under the wrappers",
    text="The scheduler inserts journal enter / exit / exception-exit events (nesting <= 3) at arbitrary positions of a seeded Engine A history; per-op outcomes and snapshots must equal the un-journaled run, every completed instrumented call must have its entry in every active journal, class attributes must be restored after the outermost exit, a plain replay afterwards must agree, and entries must not keep IR objects alive.",
    note="instrumented-operation table read from the library; journal clock replaced by a step counter; process-global class state is checked pristine at the start of every run."),
+ "C19": dict(engine="irsim", category="exploration", design="DESIGN.md section 6 (C19)", technique="deterministic simulation degenerated to one client: seeded interleavings of annotation calls (valid and invalid) with graph edits, clones and proto round trips; invariants after every op",
+   text="History-only. Generated IRv11+ models; 15-60 ops mixing shard/set_pipeline_stage/add/remove(cascade) configuration with renames, replace_input_with, resize_inputs/outputs, Model.clone and from_proto(to_proto(.)) (continuing on the new model); after every op: specs target current inputs/outputs by identity, configurations are the registered objects, the library's own check reports nothing, serialized tensor_name/configuration_id equal current names, rejected requests change nothing.",
+   note="workload restricted to what the statement covers (registered configurations, in-range devices, non-empty names, no rank change of a sharded value, cascade=True)."),
 }
 NA = [
  ("C02", "pure function of the input proto: no schedule, clock, fault, crash point or history for a simulator to vary (DESIGN.md section 7)"),
